@@ -1,7 +1,7 @@
 """C17 - legacy charsets: output valid in the locale encoding, with faithful fallbacks."""
 from lib import vlib
 
-QUICK = ["ISO8859-1", "ISO8859-5", "ISO8859-6", "KOI8-R", "US-ASCII", "EUC-JP", "SHIFT_JIS", "GBK", "Big5"]
+QUICK = ["ISO8859-1", "ISO8859-5", "ISO8859-6", "KOI8-R", "US-ASCII", "EUC-JP", "SHIFT_JIS", "GBK", "GB18030", "Big5"]
 ALL = ["US-ASCII", "ISO8859-1", "ISO8859-2", "ISO8859-3", "ISO8859-4", "ISO8859-5", "ISO8859-6", "ISO8859-7", "ISO8859-8",
        "ISO8859-9", "ISO8859-10", "ISO8859-13", "ISO8859-14", "ISO8859-15", "ISO8859-16", "KOI8-R", "KOI8-U", "EUC-JP",
        "SHIFT_JIS", "EUC-KR", "GB18030", "GBK", "Big5", "UTF-8"]
